@@ -406,7 +406,7 @@ func replayCrash(raw json.RawMessage) []string {
 
 func runC01(ctx *core.Ctx, pool *par.Pool) {
 	cfgs := []pagedrv.Cfg{pagedrv.CfgA, pagedrv.CfgC}
-	depth, seedDepth, maxBits := 7, 5, 10
+	depth, seedDepth, maxBits := 7, 6, 10
 	ctx.SetBudget(120 * time.Second)
 	if !ctx.Quick() {
 		cfgs = []pagedrv.Cfg{pagedrv.CfgA, pagedrv.CfgB, pagedrv.CfgC, pagedrv.CfgF}
